@@ -5,6 +5,7 @@
 import Drx.Link
 import DrxProofs.LinkLex
 import DrxProofs.LinkCompile
+import DrxProofs.LinkSort
 namespace Drx.Link
 open Drx Drx.Lscr Drx.Spec
 set_option linter.unusedSimpArgs false
@@ -17,7 +18,7 @@ def safeCh (c : Char) : Bool := !isIdChar c && c != '.' && c != '-' && c != '&' 
 
 def ItemOk : Item → Bool
   | .tk (.id s) => idOk s
-  | .tk (.str _) => false
+  | .tk (.str s) => safeStr s
   | .tk (.flt _ _) => false
   | _ => true
 
@@ -32,7 +33,7 @@ theorem okNext_safe (it : Item) (c : Char) (r : List Char) (hi : ItemOk it = tru
     | id s => simp [okNext, h1]; exact hi
     | num n => simp [okNext, h1, h2]
     | p x => cases x <;> simp [okNext, h3, h4, h5, h6]
-    | str s => simp [ItemOk] at hi
+    | str s => simpa [okNext, ItemOk] using hi
     | flt a b => simp [ItemOk] at hi
 
 def SafeHd (rest : List Char) : Prop := ∃ c r, rest = c :: r ∧ safeCh c = true
@@ -45,21 +46,56 @@ theorem safeHd_cons (c : Char) (r : List Char) (h : safeCh c = true) : SafeHd (c
 
 /-! ### expressions -/
 
+mutual
 def iE : Expr → List Item
   | .int k => [.tk (.num k)]
+  | .str s => [.tk (.str s)]
+  | .sym n => [.tk (.p .hash), .tk (.id n)]
   | .var _ v => [.tk (.id v)]
   | .un .neg a => .tk (.p .minus) :: iE a
   | .un .not a => kwI "not" :: .sp :: iE a
   | .bin o a b =>
     if o.isInfix then [.tk (.p .lp)] ++ iE a ++ [.sp, .tk o.tok, .sp] ++ iE b ++ [.tk (.p .rp)]
     else [kwI "sprite", .sp] ++ iE a ++ [.sp, .tk o.tok, .sp] ++ iE b
+  | .field a => kwI "field" :: .sp :: iE a
+  | .call f as => .tk (.id f) :: .tk (.p .lp) :: (iArgs as ++ [.tk (.p .rp)])
+  | .list as => .tk (.p .lb) :: (iArgs as ++ [.tk (.p .rb)])
   | _ => []
+def iArgs : List Expr → List Item
+  | [] => []
+  | [e] => iE e
+  | e :: e2 :: es => iE e ++ (.tk (.p .comma) :: .sp :: iArgs (e2 :: es))
+end
+
+theorem plain_safeStr (v : Spec.Name) (h : ∀ c ∈ v, plainCharB c = true) : safeStr v = true := by
+  simp only [safeStr, List.all_eq_true, Bool.and_eq_true, bne_iff_ne, ne_eq]
+  intro c hc
+  have := h c hc
+  simp only [plainCharB, Bool.and_eq_true, decide_eq_true_eq, bne_iff_ne, ne_eq] at this
+  refine ⟨⟨this.2, ?_⟩, ?_⟩
+  · intro e; subst e; simp at this
+  · intro e; subst e; simp at this
+
+/-- a non-empty string of plain characters is none of Lingo's named string constants -/
+theorem nameOfConstant_plain (v : Spec.Name) (hne : v ≠ []) (h : ∀ c ∈ v, plainCharB c = true) : nameOfConstant v = none := by
+  unfold nameOfConstant
+  rw [Option.map_eq_none_iff, List.find?_eq_none]
+  intro x hx
+  simp only [namedConstants, List.mem_cons, List.mem_nil_iff, or_false] at hx
+  rcases hx with hx | hx | hx | hx | hx | hx <;> subst hx <;> simp only [beq_iff_eq] <;> intro e
+  · exact hne e.symm
+  · have := h (Char.ofNat 8) (by rw [← e]; simp); simp [plainCharB] at this
+  · have := h (Char.ofNat 3) (by rw [← e]; simp); simp [plainCharB] at this
+  · have := h '"' (by rw [← e]; simp); simp [plainCharB] at this
+  · have := h '\r' (by rw [← e]; simp); simp [plainCharB] at this
+  · have := h '\t' (by rw [← e]; simp); simp [plainCharB] at this
 
 theorem optok_text (o : BinOp) (h : o ≠ .starts) : Item.text (.tk o.tok) = opTxt o := by
   cases o <;> first | rfl | exact absurd rfl h
 
 theorem optok_ok (o : BinOp) : ItemOk (.tk o.tok) = true := by cases o <;> decide
 
+mutual
 theorem render_iE : ∀ (e : Expr), FragE e = true → render (iE e) = mE e
   | .int k, _ => by simp [iE, render, Item.text, mE]
   | .var _ v, _ => by simp [iE, render, Item.text, mE]
@@ -75,21 +111,41 @@ theorem render_iE : ∀ (e : Expr), FragE e = true → render (iE e) = mE e
     cases hi : o.isInfix <;>
       simp only [iE, hi, Bool.false_eq_true, if_false, if_true, render_append, render_cons, render_iE a ha, render_iE b hb, mE,
         optok_text o ho] <;> simp [render, Item.text, S, kwI, P.text]
-  | .str _, hf => by simp [FragE] at hf
+  | .str v, _ => by simp [iE, render, Item.text, mE]
   | .float _ _, hf => by simp [FragE] at hf
-  | .sym _, hf => by simp [FragE] at hf
+  | .sym n, _ => by simp [iE, render, Item.text, mE, P.text]
   | .me, hf => by simp [FragE] at hf
-  | .field _, hf => by simp [FragE] at hf
-  | .call _ _, hf => by simp [FragE] at hf
+  | .field a, hf => by
+    simp only [FragE] at hf
+    simp only [iE, render_cons, render_iE a hf, mE]; rfl
+  | .call f as, hf => by
+    simp only [FragE, Bool.and_eq_true] at hf
+    simp only [iE, render_cons, render_append, render_iArgs as hf.2, mE]
+    simp [render, Item.text, S, P.text]
   | .mcall _ _ _, hf => by simp [FragE] at hf
-  | .list _, hf => by simp [FragE] at hf
+  | .list as, hf => by
+    simp only [FragE] at hf
+    simp only [iE, render_cons, render_append, render_iArgs as hf, mE]
+    simp [render, Item.text, S, P.text]
   | .plist _, hf => by simp [FragE] at hf
   | .the _ _ _, hf => by simp [FragE] at hf
   | .key _, hf => by simp [FragE] at hf
   | .movie _, hf => by simp [FragE] at hf
   | .oprop _ _, hf => by simp [FragE] at hf
   | .chunk _ _ _ _, hf => by simp [FragE] at hf
+theorem render_iArgs : ∀ (as : List Expr), FragL as = true → render (iArgs as) = mArgs as
+  | [], _ => rfl
+  | [e], hf => by
+    simp only [FragL, Bool.and_eq_true] at hf
+    simp only [iArgs, render_iE e hf.1, mArgs]
+  | e :: e2 :: es, hf => by
+    simp only [FragL, Bool.and_eq_true] at hf
+    have ih := render_iArgs (e2 :: es) (by simp only [FragL, Bool.and_eq_true]; exact hf.2)
+    simp only [iArgs, render_append, render_cons, render_iE e hf.1, ih, mArgs]
+    simp [Item.text, S, P.text]
+end
 
+mutual
 theorem itoks_iE : ∀ (e : Expr), FragE e = true → itoks (iE e) = prE e
   | .int k, _ => by simp [iE, itoks, prE]
   | .var _ v, _ => by simp [iE, itoks, prE]
@@ -104,20 +160,39 @@ theorem itoks_iE : ∀ (e : Expr), FragE e = true → itoks (iE e) = prE e
     obtain ⟨⟨ho, ha⟩, hb⟩ := hf
     cases hi : o.isInfix <;>
       simp [iE, hi, itoks_append, itoks, itoks_iE a ha, itoks_iE b hb, prE, kwI, kw]
-  | .str _, hf => by simp [FragE] at hf
+  | .str v, hf => by
+    simp only [FragE] at hf
+    obtain ⟨hne, hpl⟩ := plainStr_spec v hf
+    simp only [iE, itoks, prE, strToks, hne, if_false, nameOfConstant_plain v hne hpl]
   | .float _ _, hf => by simp [FragE] at hf
-  | .sym _, hf => by simp [FragE] at hf
+  | .sym n, _ => by simp [iE, itoks, prE]
   | .me, hf => by simp [FragE] at hf
-  | .field _, hf => by simp [FragE] at hf
-  | .call _ _, hf => by simp [FragE] at hf
+  | .field a, hf => by
+    simp only [FragE] at hf
+    simp only [iE, kwI, itoks, itoks_iE a hf, prE, kw]
+  | .call f as, hf => by
+    simp only [FragE, Bool.and_eq_true] at hf
+    simp [iE, itoks, itoks_append, itoks_iArgs as hf.2, prE]
   | .mcall _ _ _, hf => by simp [FragE] at hf
-  | .list _, hf => by simp [FragE] at hf
+  | .list as, hf => by
+    simp only [FragE] at hf
+    simp [iE, itoks, itoks_append, itoks_iArgs as hf, prE]
   | .plist _, hf => by simp [FragE] at hf
   | .the _ _ _, hf => by simp [FragE] at hf
   | .key _, hf => by simp [FragE] at hf
   | .movie _, hf => by simp [FragE] at hf
   | .oprop _ _, hf => by simp [FragE] at hf
   | .chunk _ _ _ _, hf => by simp [FragE] at hf
+theorem itoks_iArgs : ∀ (as : List Expr), FragL as = true → itoks (iArgs as) = prArgs as
+  | [], _ => rfl
+  | [e], hf => by
+    simp only [FragL, Bool.and_eq_true] at hf
+    simp only [iArgs, itoks_iE e hf.1, prArgs]
+  | e :: e2 :: es, hf => by
+    simp only [FragL, Bool.and_eq_true] at hf
+    have ih := itoks_iArgs (e2 :: es) (by simp only [FragL, Bool.and_eq_true]; exact hf.2)
+    simp only [iArgs, itoks_append, itoks, itoks_iE e hf.1, ih, prArgs]
+end
 
 theorem mE_ne_nil : ∀ (e : Expr), FragE e = true → mE e ≠ []
   | .int k, _ => by
@@ -131,14 +206,14 @@ theorem mE_ne_nil : ∀ (e : Expr), FragE e = true → mE e ≠ []
   | .un .neg a, _ => by simp [mE, S]
   | .un .not a, _ => by simp [mE, S]
   | .bin o a b, _ => by cases h : o.isInfix <;> simp [mE, h, S]
-  | .str _, hf => by simp [FragE] at hf
+  | .str v, _ => by simp [mE]
   | .float _ _, hf => by simp [FragE] at hf
-  | .sym _, hf => by simp [FragE] at hf
+  | .sym n, _ => by simp [mE]
   | .me, hf => by simp [FragE] at hf
-  | .field _, hf => by simp [FragE] at hf
-  | .call _ _, hf => by simp [FragE] at hf
+  | .field _, _ => by simp [mE, S]
+  | .call f as, _ => by simp [mE, S]
   | .mcall _ _ _, hf => by simp [FragE] at hf
-  | .list _, hf => by simp [FragE] at hf
+  | .list _, _ => by simp [mE, S]
   | .plist _, hf => by simp [FragE] at hf
   | .the _ _ _, hf => by simp [FragE] at hf
   | .key _, hf => by simp [FragE] at hf
@@ -150,7 +225,10 @@ theorem safe_sp : safeCh ' ' = true := by decide
 theorem safe_rp : safeCh ')' = true := by decide
 theorem safe_nl : safeCh '\n' = true := by decide
 theorem safe_comma : safeCh ',' = true := by decide
+theorem safe_lp : safeCh '(' = true := by decide
+theorem safe_rb : safeCh ']' = true := by decide
 
+mutual
 theorem chain_iE : ∀ (e : Expr), FragE e = true → ∀ (rest : List Char), SafeHd rest → Chain (iE e) rest = true
   | .int k, _, rest, h => by
     simp only [iE, Chain, render, List.flatMap_nil, List.nil_append, Bool.and_true]
@@ -212,20 +290,58 @@ theorem chain_iE : ∀ (e : Expr), FragE e = true → ∀ (rest : List Char), Sa
         exact ⟨okNext_safe (kwI "sprite") ' ' _ (by decide) safe_sp, rfl⟩
       rw [e, chain_append, chain_append, chain_append, h1, h2, h3, h4]
       rfl
-  | .str _, hf, _, _ => by simp [FragE] at hf
+  | .str v, hf, rest, h => by
+    simp only [FragE] at hf
+    simp only [iE, Chain, render, List.flatMap_nil, List.nil_append, Bool.and_true]
+    exact okNext_safeHd _ _ (by simpa [ItemOk] using plain_safeStr v (plainStr_spec v hf).2) h
   | .float _ _, hf, _, _ => by simp [FragE] at hf
-  | .sym _, hf, _, _ => by simp [FragE] at hf
+  | .sym n, hf, rest, h => by
+    simp only [FragE] at hf
+    simp only [iE, Chain, render, List.flatMap_nil, List.nil_append, Bool.and_true, Bool.and_eq_true]
+    exact ⟨rfl, okNext_safeHd _ _ (by simpa [ItemOk] using hf) h⟩
   | .me, hf, _, _ => by simp [FragE] at hf
-  | .field _, hf, _, _ => by simp [FragE] at hf
-  | .call _ _, hf, _, _ => by simp [FragE] at hf
+  | .field a, hf, rest, h => by
+    simp only [FragE] at hf
+    simp only [iE, Chain, Bool.and_eq_true]
+    refine ⟨?_, rfl, chain_iE a hf rest h⟩
+    exact okNext_safe (kwI "field") ' ' _ (by decide) safe_sp
+  | .call f as, hf, rest, h => by
+    simp only [FragE, Bool.and_eq_true] at hf
+    obtain ⟨⟨⟨⟨hid, _⟩, _⟩, _⟩, hfl⟩ := hf
+    simp only [iE, Chain, Bool.and_eq_true]
+    refine ⟨?_, rfl, ?_⟩
+    · exact okNext_safe (.tk (.id f)) '(' _ (by simpa [ItemOk] using hid) safe_lp
+    · have hv := chain_iArgs as hfl (render [.tk (.p .rp)] ++ rest) ⟨')', rest, rfl, safe_rp⟩
+      rw [chain_append, hv]
+      simp [Chain, okNext]
   | .mcall _ _ _, hf, _, _ => by simp [FragE] at hf
-  | .list _, hf, _, _ => by simp [FragE] at hf
+  | .list as, hf, rest, h => by
+    simp only [FragE] at hf
+    simp only [iE, Chain, Bool.and_eq_true]
+    refine ⟨rfl, ?_⟩
+    have hv := chain_iArgs as hf (render [.tk (.p .rb)] ++ rest) ⟨']', rest, rfl, safe_rb⟩
+    rw [chain_append, hv]
+    simp [Chain, okNext]
   | .plist _, hf, _, _ => by simp [FragE] at hf
   | .the _ _ _, hf, _, _ => by simp [FragE] at hf
   | .key _, hf, _, _ => by simp [FragE] at hf
   | .movie _, hf, _, _ => by simp [FragE] at hf
   | .oprop _ _, hf, _, _ => by simp [FragE] at hf
   | .chunk _ _ _ _, hf, _, _ => by simp [FragE] at hf
+theorem chain_iArgs : ∀ (as : List Expr), FragL as = true → ∀ (rest : List Char), SafeHd rest → Chain (iArgs as) rest = true
+  | [], _, _, _ => rfl
+  | [e], hf, rest, h => by
+    simp only [FragL, Bool.and_eq_true] at hf
+    simp only [iArgs]
+    exact chain_iE e hf.1 rest h
+  | e :: e2 :: es, hf, rest, h => by
+    simp only [FragL, Bool.and_eq_true] at hf
+    have ih := chain_iArgs (e2 :: es) (by simp only [FragL, Bool.and_eq_true]; exact hf.2) rest h
+    simp only [iArgs]
+    rw [chain_append, chain_iE e hf.1 _ ⟨',', render (.sp :: iArgs (e2 :: es)) ++ rest, by simp [render, Item.text, P.text], safe_comma⟩]
+    simp only [Chain, Bool.and_eq_true, Bool.true_and]
+    exact ⟨okNext_safe (.tk (.p .comma)) ' ' _ (by decide) safe_sp, rfl, ih⟩
+end
 
 /-! ### statements, handlers, scripts -/
 
@@ -290,6 +406,8 @@ theorem chain_cons_comma_sp (it : Item) (l : List Item) (rest : List Char) (hi :
 
 def iS (ind : Nat) : Stmt → List Item
   | .set lv v => iIndent ind ++ ([kwI "set", .sp] ++ (iE lv ++ ([.sp, .tk (.p .eq), .sp] ++ (iE v ++ [.tk .nl]))))
+  | .call f as => iIndent ind ++ (.tk (.id f) :: ((if as.isEmpty then [] else .sp :: iArgs as) ++ [.tk .nl]))
+  | .exit => iIndent ind ++ [kwI "exit", .tk .nl]
   | _ => []
 
 def iSs (ind : Nat) : List Stmt → List Item
@@ -305,13 +423,34 @@ theorem render_iS (ind : Nat) (s : Stmt) (hf : FragS s = true) : render (iS ind 
     simp only [FragS, Bool.and_eq_true] at hf
     simp only [iS, render_append, render_indent, render_iE lv (fragLv_fragE lv hf.1), render_iE v hf.2, mS]
     simp [render, Item.text, kwI, S, P.text]
+  | call f as =>
+    simp only [FragS, Bool.and_eq_true] at hf
+    cases hemp : as.isEmpty <;>
+      simp [iS, hemp, render_append, render_cons, render_indent, render_iArgs as hf.2, mS, Item.text, S, render_nil]
+  | exit => simp [iS, render_append, render_cons, render_indent, mS, Item.text, kwI, S, render_nil]
   | _ => simp [FragS] at hf
+
+theorem plainCall_pr (f : Spec.Name) (as : List Expr) (h : plainCallName f = true) : prCallStmt f as = .id f :: prArgs as := by
+  simp only [plainCallName, Bool.and_eq_true, bne_iff_ne, ne_eq] at h
+  have h1 : ¬ f = ['s', 'o', 'u', 'n', 'd'] := h.1
+  have h2 : ¬ f = ['g', 'o'] := h.2
+  simp [prCallStmt, h1, h2]
 
 theorem itoks_iS (ind : Nat) (s : Stmt) (hf : FragS s = true) : itoks (iS ind s) = prS s := by
   cases s with
   | set lv v =>
     simp only [FragS, Bool.and_eq_true] at hf
     simp [iS, itoks_append, itoks_indent, itoks_iE lv (fragLv_fragE lv hf.1), itoks_iE v hf.2, prS, itoks, kwI, kw]
+  | call f as =>
+    simp only [FragS, Bool.and_eq_true] at hf
+    cases hemp : as.isEmpty with
+    | true =>
+      have : as = [] := List.isEmpty_iff.mp hemp
+      subst this
+      simp [iS, itoks_append, itoks_indent, itoks, prS, plainCall_pr f [] hf.1.1.2, prArgs]
+    | false =>
+      simp [iS, hemp, itoks_append, itoks_indent, itoks, itoks_iArgs as hf.2, prS, plainCall_pr f as hf.1.1.2]
+  | exit => simp [iS, itoks_append, itoks_indent, itoks, prS, kwI, kw]
   | _ => simp [FragS] at hf
 
 theorem chain_iS (ind : Nat) (s : Stmt) (hf : FragS s = true) (l : List Item) (rest : List Char) :
@@ -328,6 +467,21 @@ theorem chain_iS (ind : Nat) (s : Stmt) (hf : FragS s = true) (l : List Item) (r
     have hv := chain_iE v hf.2 (render (.tk .nl :: l) ++ rest) ⟨'\n', _, rfl, safe_nl⟩
     rw [chain_cons_sp _ _ _ (by decide), chain_cons_sp _ _ _ (by simpa [ItemOk] using hid), chain_cons_sp _ _ _ (by decide),
       chain_append, hv, Bool.true_and, chain_nl]
+  | call f as =>
+    simp only [FragS, Bool.and_eq_true] at hf
+    obtain ⟨⟨⟨hid, _⟩, _⟩, hfl⟩ := hf
+    simp only [iS, List.append_assoc, List.cons_append, chain_indent]
+    cases hemp : as.isEmpty with
+    | true =>
+      simp only [if_true, List.nil_append, List.cons_append]
+      exact chain_cons_nl _ _ _ (by simpa [ItemOk] using hid)
+    | false =>
+      simp only [Bool.false_eq_true, if_false, List.cons_append, List.nil_append]
+      have hv := chain_iArgs as hfl (render (.tk .nl :: l) ++ rest) ⟨'\n', _, rfl, safe_nl⟩
+      rw [chain_cons_sp _ _ _ (by simpa [ItemOk] using hid), chain_append, hv, Bool.true_and, chain_nl]
+  | exit =>
+    simp only [iS, List.append_assoc, List.cons_append, List.nil_append, chain_indent]
+    exact chain_cons_nl _ _ _ (by decide)
   | _ => simp [FragS] at hf
 
 theorem render_iSs (ind : Nat) : ∀ (ss : List Stmt), FragSs ss = true → render (iSs ind ss) = mSs ind ss
@@ -383,32 +537,79 @@ theorem chain_iNames : ∀ (ns : List Spec.Name), (∀ n ∈ ns, idOk n = true) 
     rw [chain_cons_comma_sp _ _ _ (by simpa [ItemOk] using h n (by simp))]
     exact ih
 
-def iHandler (h : Handler) : List Item :=
-  [kwI "on", .sp, .tk (.id h.name)] ++ ((if h.params.isEmpty then [] else .sp :: iNames h.params) ++ ([.tk .nl] ++ (iSs 1 h.body ++ [kwI "end", .tk .nl])))
+/-- `    global g` lines -/
+def iHGlobalLines : List Spec.Name → List Item
+  | [] => []
+  | g :: gs => iIndent 1 ++ (kwI "global" :: .sp :: .tk (.id g) :: .tk .nl :: iHGlobalLines gs)
 
-def iHandlers : List Handler → Bool → List Item
+def iHGlobals (gl : List Spec.Name) : List Item := iHGlobalLines gl ++ (if gl.isEmpty then [] else [.tk .nl])
+
+theorem render_iHGlobalLines : ∀ (gl : List Spec.Name),
+    render (iHGlobalLines gl) = (gl.map fun g => indentOf 1 ++ S "global " ++ g ++ S "\n").flatten
+  | [] => rfl
+  | g :: gs => by
+    simp only [iHGlobalLines, render_append, render_cons, render_indent, render_iHGlobalLines gs, List.map_cons, List.flatten_cons]
+    simp [Item.text, kwI, S]
+
+theorem render_iHGlobals (gl : List Spec.Name) : render (iHGlobals gl) = mGlobalLines gl := by
+  unfold iHGlobals mGlobalLines
+  rw [render_append, render_iHGlobalLines]
+  cases gl <;> simp [render, Item.text, S]
+
+theorem itoks_iHGlobalLines : ∀ (gl : List Spec.Name), itoks (iHGlobalLines gl) = gl.flatMap (fun g => [kw "global", .id g, .nl])
+  | [] => rfl
+  | g :: gs => by simp [iHGlobalLines, itoks_append, itoks_indent, itoks, itoks_iHGlobalLines gs, kwI, kw]
+
+theorem itoks_iHGlobals (gl : List Spec.Name) : itoks (iHGlobals gl) = dGlobalLines gl := by
+  unfold iHGlobals dGlobalLines
+  rw [itoks_append, itoks_iHGlobalLines]
+  cases gl <;> simp [itoks]
+
+theorem chain_iHGlobalLines : ∀ (gl : List Spec.Name), (∀ g ∈ gl, idOk g = true) → ∀ (l : List Item) (rest : List Char),
+    Chain (iHGlobalLines gl ++ l) rest = Chain l rest
+  | [], _, l, rest => rfl
+  | g :: gs, h, l, rest => by
+    simp only [iHGlobalLines, List.append_assoc, List.cons_append, chain_indent]
+    rw [chain_cons_sp _ _ _ (by decide), chain_cons_nl _ _ _ (by simpa [ItemOk] using h g (by simp)),
+      chain_iHGlobalLines gs (fun x hx => h x (by simp [hx]))]
+
+theorem chain_iHGlobals (gl : List Spec.Name) (h : ∀ g ∈ gl, idOk g = true) (l : List Item) (rest : List Char) :
+    Chain (iHGlobals gl ++ l) rest = Chain l rest := by
+  unfold iHGlobals
+  rw [List.append_assoc, chain_iHGlobalLines gl h]
+  cases gl <;> simp [chain_nl]
+
+def iHandler (s : Spec.Script) (h : Handler) : List Item :=
+  [kwI "on", .sp, .tk (.id h.name)] ++ ((if h.params.isEmpty then [] else .sp :: iNames h.params) ++ ([.tk .nl] ++
+    (iHGlobals (hGlobalsSorted s h) ++ (iSs 1 h.body ++ [kwI "end", .tk .nl]))))
+
+def iHandlers (s : Spec.Script) : List Handler → Bool → List Item
   | [], _ => []
-  | h :: hs, first => (if first then [] else [.tk .nl]) ++ (iHandler h ++ iHandlers hs false)
+  | h :: hs, first => (if first then [] else [.tk .nl]) ++ (iHandler s h ++ iHandlers s hs false)
 
-theorem render_iHandler (h : Handler) (hb : FragSs h.body = true) : render (iHandler h) = mHandler h := by
+theorem render_iHandler (s : Spec.Script) (h : Handler) (hb : FragSs h.body = true) : render (iHandler s h) = mHandler s h := by
   unfold iHandler mHandler
   cases hp : h.params.isEmpty <;>
-    simp [hp, render_append, render_cons, render_iSs 1 h.body hb, render_iNames, Item.text, kwI, S, render_nil]
+    simp [hp, render_append, render_cons, render_iSs 1 h.body hb, render_iNames, render_iHGlobals, Item.text, kwI, S, render_nil]
 
-theorem itoks_iHandler (h : Handler) (hb : FragSs h.body = true) : itoks (iHandler h) = dHandler h := by
+theorem itoks_iHandler (s : Spec.Script) (h : Handler) (hb : FragSs h.body = true) : itoks (iHandler s h) = dHandler s h := by
   unfold iHandler dHandler
   cases hp : h.params.isEmpty with
   | true =>
     have : h.params = [] := List.isEmpty_iff.mp hp
-    simp [hp, this, itoks_append, itoks, itoks_iSs 1 h.body hb, kwI, kw, prNames]
+    simp [hp, this, itoks_append, itoks, itoks_iSs 1 h.body hb, itoks_iHGlobals, kwI, kw, prNames]
   | false =>
-    simp [hp, itoks_append, itoks, itoks_iSs 1 h.body hb, itoks_iNames, kwI, kw]
+    simp [hp, itoks_append, itoks, itoks_iSs 1 h.body hb, itoks_iNames, itoks_iHGlobals, kwI, kw]
 
-theorem chain_iHandler (h : Handler) (hb : FragSs h.body = true) (hn : idOk h.name = true) (hp : ∀ v ∈ h.params, idOk v = true)
-    (l : List Item) (rest : List Char) : Chain (iHandler h ++ l) rest = Chain l rest := by
-  have hbody : ∀ l', Chain (iSs 1 h.body ++ (kwI "end" :: .tk .nl :: l')) rest = Chain l' rest := by
+theorem hGlobalsSorted_mem (s : Spec.Script) (h : Handler) (g : Spec.Name) (hg : g ∈ hGlobalsSorted s h) : g ∈ h.globalsUsed s.globals :=
+  (isort_perm _).mem_iff.mp hg
+
+theorem chain_iHandler (s : Spec.Script) (h : Handler) (hb : FragSs h.body = true) (hn : idOk h.name = true) (hp : ∀ v ∈ h.params, idOk v = true)
+    (hgl : ∀ g ∈ h.globalsUsed s.globals, idOk g = true)
+    (l : List Item) (rest : List Char) : Chain (iHandler s h ++ l) rest = Chain l rest := by
+  have hbody : ∀ l', Chain (iHGlobals (hGlobalsSorted s h) ++ (iSs 1 h.body ++ (kwI "end" :: .tk .nl :: l'))) rest = Chain l' rest := by
     intro l'
-    rw [chain_iSs 1 h.body hb, chain_cons_nl _ _ _ (by decide)]
+    rw [chain_iHGlobals _ (fun g hg => hgl g (hGlobalsSorted_mem s h g hg)), chain_iSs 1 h.body hb, chain_cons_nl _ _ _ (by decide)]
   unfold iHandler
   cases hpe : h.params.isEmpty with
   | true =>
@@ -418,33 +619,34 @@ theorem chain_iHandler (h : Handler) (hb : FragSs h.body = true) (hn : idOk h.na
     simp only [Bool.false_eq_true, if_false, List.append_assoc, List.cons_append, List.nil_append]
     rw [chain_cons_sp _ _ _ (by decide), chain_cons_sp _ _ _ (by simpa [ItemOk] using hn), chain_iNames h.params hp, hbody]
 
-theorem render_iHandlers : ∀ (hs : List Handler) (first : Bool), (∀ h ∈ hs, FragSs h.body = true) →
-    render (iHandlers hs first) = mHandlers hs first
+theorem render_iHandlers (s : Spec.Script) : ∀ (hs : List Handler) (first : Bool), (∀ h ∈ hs, FragSs h.body = true) →
+    render (iHandlers s hs first) = mHandlers s hs first
   | [], _, _ => rfl
   | h :: hs, first, hf => by
-    have ih := render_iHandlers hs false (fun x hx => hf x (by simp [hx]))
-    cases first <;> simp [iHandlers, mHandlers, render_append, render_cons, render_iHandler h (hf h (by simp)), ih, Item.text, S, render_nil]
+    have ih := render_iHandlers s hs false (fun x hx => hf x (by simp [hx]))
+    cases first <;> simp [iHandlers, mHandlers, render_append, render_cons, render_iHandler s h (hf h (by simp)), ih, Item.text, S, render_nil]
 
-theorem itoks_iHandlers : ∀ (hs : List Handler) (first : Bool), (∀ h ∈ hs, FragSs h.body = true) →
-    itoks (iHandlers hs first) = dHandlers hs first
+theorem itoks_iHandlers (s : Spec.Script) : ∀ (hs : List Handler) (first : Bool), (∀ h ∈ hs, FragSs h.body = true) →
+    itoks (iHandlers s hs first) = dHandlers s hs first
   | [], _, _ => rfl
   | h :: hs, first, hf => by
-    have ih := itoks_iHandlers hs false (fun x hx => hf x (by simp [hx]))
-    cases first <;> simp [iHandlers, dHandlers, itoks_append, itoks, itoks_iHandler h (hf h (by simp)), ih]
+    have ih := itoks_iHandlers s hs false (fun x hx => hf x (by simp [hx]))
+    cases first <;> simp [iHandlers, dHandlers, itoks_append, itoks, itoks_iHandler s h (hf h (by simp)), ih]
 
-theorem chain_iHandlers : ∀ (hs : List Handler) (first : Bool),
-    (∀ h ∈ hs, FragSs h.body = true ∧ idOk h.name = true ∧ ∀ v ∈ h.params, idOk v = true) → Chain (iHandlers hs first) [] = true
+theorem chain_iHandlers (s : Spec.Script) : ∀ (hs : List Handler) (first : Bool),
+    (∀ h ∈ hs, FragSs h.body = true ∧ idOk h.name = true ∧ (∀ v ∈ h.params, idOk v = true) ∧ ∀ g ∈ h.globalsUsed s.globals, idOk g = true) →
+    Chain (iHandlers s hs first) [] = true
   | [], _, _ => rfl
   | h :: hs, first, hf => by
-    obtain ⟨hb, hn, hp⟩ := hf h (by simp)
-    have ih := chain_iHandlers hs false (fun x hx => hf x (by simp [hx]))
+    obtain ⟨hb, hn, hp, hg⟩ := hf h (by simp)
+    have ih := chain_iHandlers s hs false (fun x hx => hf x (by simp [hx]))
     cases first with
     | true =>
       simp only [iHandlers, if_true, List.nil_append]
-      rw [chain_iHandler h hb hn hp, ih]
+      rw [chain_iHandler s h hb hn hp hg, ih]
     | false =>
       simp only [iHandlers, Bool.false_eq_true, if_false, List.cons_append, List.nil_append, chain_nl]
-      rw [chain_iHandler h hb hn hp, ih]
+      rw [chain_iHandler s h hb hn hp hg, ih]
 
 def iGlobals : List Spec.Name → List Item
   | [] => []
@@ -452,7 +654,7 @@ def iGlobals : List Spec.Name → List Item
 
 def iScript (s : Spec.Script) : List Item :=
   (if s.props.length > 0 then kwI "property" :: .sp :: (iNames s.props ++ [.tk .nl]) else [])
-    ++ (if s.globals.length > 0 then iGlobals s.globals ++ [.tk .nl] else []) ++ iHandlers s.handlers true
+    ++ (if s.globals.length > 0 then iGlobals s.globals ++ [.tk .nl] else []) ++ iHandlers s s.handlers true
 
 theorem render_iGlobals : ∀ (gs : List Spec.Name), render (iGlobals gs) = (gs.map fun g => S "global " ++ g ++ S "\n").flatten
   | [] => rfl
@@ -474,18 +676,19 @@ theorem chain_iGlobals : ∀ (gs : List Spec.Name), (∀ g ∈ gs, idOk g = true
 
 theorem fragScript_spec (s : Spec.Script) (hf : FragScript s = true) :
     s.factory = [] ∧ (∀ v ∈ s.props, idOk v = true) ∧ (∀ g ∈ s.globals, idOk g = true) ∧
-      ∀ h ∈ s.handlers, FragSs h.body = true ∧ idOk h.name = true ∧ ∀ v ∈ h.params, idOk v = true := by
+      ∀ h ∈ s.handlers, FragSs h.body = true ∧ idOk h.name = true ∧ (∀ v ∈ h.params, idOk v = true) ∧
+        ∀ g ∈ h.globalsUsed s.globals, idOk g = true := by
   simp only [FragScript, Bool.and_eq_true, List.all_eq_true, List.isEmpty_iff] at hf
   obtain ⟨⟨⟨h1, h2⟩, h3⟩, h4⟩ := hf
   refine ⟨h1, h2, h3, ?_⟩
   intro h hh
-  obtain ⟨_, a, b, c, _, _⟩ := fragH_spec s h (h4 h hh)
-  exact ⟨c, a, b⟩
+  obtain ⟨_, a, b, c, _, d⟩ := fragH_spec s h (h4 h hh)
+  exact ⟨c, a, b, d⟩
 
 theorem render_iScript (s : Spec.Script) (hf : FragScript s = true) : render (iScript s) = mText s := by
   obtain ⟨_, _, _, hH⟩ := fragScript_spec s hf
   unfold iScript mText
-  simp only [render_append, render_iHandlers s.handlers true (fun h hh => (hH h hh).1)]
+  simp only [render_append, render_iHandlers s s.handlers true (fun h hh => (hH h hh).1)]
   congr 1
   congr 1
   · split
@@ -498,7 +701,7 @@ theorem render_iScript (s : Spec.Script) (hf : FragScript s = true) : render (iS
 theorem itoks_iScript (s : Spec.Script) (hf : FragScript s = true) : itoks (iScript s) = dToks s := by
   obtain ⟨_, _, _, hH⟩ := fragScript_spec s hf
   unfold iScript dToks
-  simp only [itoks_append, itoks_iHandlers s.handlers true (fun h hh => (hH h hh).1)]
+  simp only [itoks_append, itoks_iHandlers s s.handlers true (fun h hh => (hH h hh).1)]
   congr 1
   congr 1
   · split
@@ -510,8 +713,8 @@ theorem itoks_iScript (s : Spec.Script) (hf : FragScript s = true) : itoks (iScr
 
 theorem chain_iScript (s : Spec.Script) (hf : FragScript s = true) : Chain (iScript s) [] = true := by
   obtain ⟨_, hP, hG, hH⟩ := fragScript_spec s hf
-  have h3 : Chain (iHandlers s.handlers true) [] = true := chain_iHandlers s.handlers true hH
-  have h2 : Chain ((if s.globals.length > 0 then iGlobals s.globals ++ [.tk .nl] else []) ++ iHandlers s.handlers true) [] = true := by
+  have h3 : Chain (iHandlers s s.handlers true) [] = true := chain_iHandlers s s.handlers true hH
+  have h2 : Chain ((if s.globals.length > 0 then iGlobals s.globals ++ [.tk .nl] else []) ++ iHandlers s s.handlers true) [] = true := by
     split
     · simp only [List.append_assoc, List.cons_append, List.nil_append]
       rw [chain_iGlobals s.globals hG, chain_nl, h3]
